@@ -522,6 +522,12 @@ class Client(base_client.BaseClient):
                     self._handle_ack(pkt.namespace, pkt.id, pkt.data)
         else:
             pkt = self.packet_class(encoded_packet=data)
+            if pkt.attachment_count == 0:
+                # a binary packet that announces no attachments is complete
+                if pkt.packet_type == packet.BINARY_EVENT:
+                    pkt.packet_type = packet.EVENT
+                elif pkt.packet_type == packet.BINARY_ACK:
+                    pkt.packet_type = packet.ACK
             if pkt.packet_type == packet.CONNECT:
                 self._handle_connect(pkt.namespace, pkt.data)
             elif pkt.packet_type == packet.DISCONNECT:
